@@ -387,7 +387,7 @@ def runLine (d : DState) (line : String) : DState × List String :=
       else (d, ["bad-op"])
     else if kind = "roany" then
       if rest.isEmpty then
-        let d' := applyRo d .opaque
+        let d' := applyRo d .unmodelled
         (d', dump d'.node ++ [flagLine d'])
       else (d, ["bad-op"])
     else if kind = "rorm" || kind = "roadd" then
